@@ -329,3 +329,9 @@ def oracle(lines, impl):
                     t, lo, got, ys[lo], ys[hi])))
                 break
     return fails
+
+# --- deep theorems (Rounding2)
+PROOF_MODULES = PROOF_MODULES + ['Compute.Lemmas.InterpRounding', 'Compute.Props.Rounding2']
+REQUIRED_THEOREMS = REQUIRED_THEOREMS + ['Cv.Rounding2.interpOne_error', 'Cv.Rounding2.interpOne_error_16u', 'Cv.Rounding2.interpOne_between_rounded', 'Cv.Rounding2.interpOne_knot_exact']
+NOT_PROVED = [x for x in NOT_PROVED if not any(k in str(x) for k in ('floating-point rounding of the interior', 'exactness at knots in IEEE'))]
+NOT_PROVED = NOT_PROVED + ['rounding of the extrapolation branch (oracle only); for targets inside the range the rounded result is proved within gamma_8 max|y| (<= 16u) of the line, between the ordinates up to that, and EXACT at every knot, in the standard model (Props/Rounding2)']
